@@ -94,7 +94,20 @@ func (a *clusterACLs) allowed(principal, host, resourceName string, resourceType
 	return hasAllow
 }
 
+// anyAllowed reports whether the principal may perform op on at least one
+// resource of the given type, following Kafka's authorizeByResourceType: a
+// DENY on the literal wildcard denies outright, an ALLOW on the literal
+// wildcard allows, and any other ALLOW pattern counts only if it is not
+// dominated by a DENY (the same literal name, or a DENY prefix that is a
+// prefix of the allowed name).
 func (a *clusterACLs) anyAllowed(principal, host string, resourceType kmsg.ACLResourceType, op kmsg.ACLOperation) bool {
+	var (
+		denyLiterals  = make(map[string]struct{})
+		denyPrefixes  []string
+		allowLiterals []string
+		allowPrefixes []string
+		wildcardAllow bool
+	)
 	for i := range a.acls {
 		acl := &a.acls[i]
 		if acl.resourceType != resourceType ||
@@ -103,7 +116,50 @@ func (a *clusterACLs) anyAllowed(principal, host string, resourceType kmsg.ACLRe
 			!acl.matchesOp(op) {
 			continue
 		}
-		if acl.permission == kmsg.ACLPermissionTypeAllow {
+		literal := acl.pattern == kmsg.ACLResourcePatternTypeLiteral
+		if !literal && acl.pattern != kmsg.ACLResourcePatternTypePrefixed {
+			continue
+		}
+		switch acl.permission {
+		case kmsg.ACLPermissionTypeDeny:
+			switch {
+			case literal && acl.resourceName == "*":
+				return false
+			case literal:
+				denyLiterals[acl.resourceName] = struct{}{}
+			default:
+				denyPrefixes = append(denyPrefixes, acl.resourceName)
+			}
+		case kmsg.ACLPermissionTypeAllow:
+			switch {
+			case literal && acl.resourceName == "*":
+				wildcardAllow = true
+			case literal:
+				allowLiterals = append(allowLiterals, acl.resourceName)
+			default:
+				allowPrefixes = append(allowPrefixes, acl.resourceName)
+			}
+		default:
+		}
+	}
+	if wildcardAllow {
+		return true
+	}
+	dominated := func(name string) bool {
+		for _, deny := range denyPrefixes {
+			if strings.HasPrefix(name, deny) {
+				return true
+			}
+		}
+		return false
+	}
+	for _, name := range allowLiterals {
+		if _, denied := denyLiterals[name]; !denied && !dominated(name) {
+			return true
+		}
+	}
+	for _, name := range allowPrefixes {
+		if !dominated(name) {
 			return true
 		}
 	}
